@@ -427,14 +427,16 @@ fn append_attribute<'input>(
     }
 
     if aid.allows_inherit_value() && &*value == "inherit" {
-        return resolve_inherit(parent_id, aid, doc);
+        return resolve_inherit(parent_id, aid, important, doc);
     }
 
     doc.append_attribute(aid, value, important);
     true
 }
 
-fn resolve_inherit(parent_id: NodeId, aid: AId, doc: &mut Document) -> bool {
+// `important` belongs to the declaration that has the `inherit` value,
+// not to the one the value is taken from.
+fn resolve_inherit(parent_id: NodeId, aid: AId, important: bool, doc: &mut Document) -> bool {
     if aid.is_inheritable() {
         // Inheritable attributes can inherit a value from an any ancestor.
         let node_id = doc
@@ -453,7 +455,7 @@ fn resolve_inherit(parent_id: NodeId, aid: AId, doc: &mut Document) -> bool {
                 doc.attrs.push(Attribute {
                     name: aid,
                     value: attr.value,
-                    important: attr.important,
+                    important,
                 });
 
                 return true;
@@ -471,7 +473,7 @@ fn resolve_inherit(parent_id: NodeId, aid: AId, doc: &mut Document) -> bool {
             doc.attrs.push(Attribute {
                 name: aid,
                 value: attr.value,
-                important: attr.important,
+                important,
             });
 
             return true;
@@ -526,7 +528,7 @@ fn resolve_inherit(parent_id: NodeId, aid: AId, doc: &mut Document) -> bool {
         _ => return false,
     };
 
-    doc.append_attribute(aid, roxmltree::StringStorage::Borrowed(value), false);
+    doc.append_attribute(aid, roxmltree::StringStorage::Borrowed(value), important);
     true
 }
 
